@@ -61,7 +61,7 @@ PROBES = {
 
 
 def plan(tier, seed):
-    n = 400 if tier == "quick" else 6000
+    n = 1600 if tier == "quick" else 24000
     return {"n_cases": n, "floors": {"evaluations": n // 2}}
 
 
